@@ -33,6 +33,8 @@ PROFILES = {
     'Z': ([1, 3, 2], [3, 1, 2]),
     'C': ([2, 2, 2], [2, 2, 2]),
     'D': ([3, 4, 5], [1, 2, 3]),          # constant paired difference (zero variance of the difference)
+    'Q': ([5, 1, 5], [6, 2, 1]),          # effect only under the cross grouping {x0,y0} | {x1,y1}
+    '0': ([2, 3, 2.5], [2.5, 2, 3]),      # nothing, with variance
 }
 THRESH = (0.5, 3.0)
 TAILS = ('both', 'left', 'right')
@@ -78,6 +80,17 @@ def catalogue(thorough):
             for tail in TAILS:
                 cfgs.append({'n': 4, 'profile': prof, 'nx': nx, 'ny': ny, 'thresh': 0.5, 'tail': tail,
                              'paired': paired, 'k': 1})
+    # 9-node designs whose relabelled data split into two components where the one with more nodes has fewer
+    # connections (4-clique vs 5-star): "largest" must be measured in connections
+    pairs9 = ss.und_pairs(9)
+    clique = {(a, b) for a in range(4) for b in range(a + 1, 4)}
+    star = {(4, b) for b in range(5, 9)}
+    for lone in ('P', 'N'):
+        for big in ('Q',):
+            prof = ''.join(big if (e in clique or e in star) else ('0' if e != (7, 8) else lone) for e in pairs9)
+            for tail in TAILS:
+                cfgs.append({'n': 9, 'profile': prof, 'nx': 2, 'ny': 2, 'thresh': 3.0, 'tail': tail, 'paired': False,
+                             'k': 1})
     if thorough:
         for prof in ('PPP', 'PNZ', 'PSC'):
             for tail in TAILS:
